@@ -39,6 +39,7 @@ DECIDING = ['tcpcl.session:ContactHandler.is_sess_idle', 'tcpcl.session:ContactH
             'udpcl.agent:Agent._recv_ext_map']
 REQUIRED_OBS = ['stack_pops_compared', 'runs', 'signals_checked', 'returns_checked', 'invariant_evaluations', 'idle_true_checked', 'pops_checked',
                 'agent_scenarios', 'udpcl_datagrams', 'refuse_signals', 'agent_transfers_checked', 'tls_param_reports']
+RULE = RULE + " Whole-stack runs (vf.stack): three hosts X-Y-Z, each a real BP agent bound through bp/cla.py and the in-process bus to real UDPCL/TCPCL agents over the simulated network (datagrams reordered and duplicated, BP and UDPCL MTUs, 2-14 bundles with report requests per scenario); judged per node, conditional on what the node's adaptor popped and what the agent handed to the adaptor's sender; the stack_* counters say what was compared."
 
 
 class Shadow(object):
